@@ -126,23 +126,19 @@ def numOr (o : Option Num) (d : Rat) : Rat := match o with | some n => n.val | n
 def zScoreBody (sqrt : Rat → Rat) (a : Arr) (tt ft start end_ : Rat) : Except Err Arr :=
   match meanL a.valid, varL a.valid with
   | some mean, some var =>
-      let std := sqrt var
-      let x1 := mean + std * tt
-      let x2 := mean + std * ft
-      .ok ((linMap x1 x2 end_ start a).insure start end_)
+      .ok ((linMap (mean + sqrt var * tt) (mean + sqrt var * ft) end_ start a).insure start end_)
   | _, _ => .ok { dtype := .float, shape := a.shape, cells := a.cells.map fun _ => ⟨fillValue, true⟩ }
 
-/-- `NormalizeCat.execute` -/
+/-- `result = full(default); for raw, normal in pairs: result[arr.data == raw] = normal` (later pairs overwrite earlier ones) -/
+def catLookup (pairs : List (Num × Num)) (dflt : Rat) (x : Rat) : Rat :=
+  pairs.foldl (fun acc (p : Num × Num) => if x == p.1.val then p.2.val else acc) dflt
+
+/-- `NormalizeCat.execute` (the comparison reads `.data`; the result takes the input's mask) -/
 def catBody (a : Arr) (raw normal : List Num) (dflt : Num) : Except Err Arr :=
   if raw.length != normal.length then eMp "MixedArrayLengths" .cmd
   else if hasDup (raw.map (·.val)) then eMp "DuplicateRawValues" (.arg "RawValues")
-  else
-    let pairs := List.zip raw normal
-    .ok { dtype := .float, shape := a.shape,
-          cells := a.cells.map fun c =>
-            -- later pairs overwrite earlier ones; the comparison reads `.data`
-            let v := pairs.foldl (fun acc (p : Num × Num) => if c.val == p.1.val then p.2.val else acc) dflt.val
-            ⟨v, c.mask⟩ }
+  else .ok { dtype := .float, shape := a.shape,
+             cells := a.cells.map fun c => ⟨catLookup (List.zip raw normal) dflt.val c.val, c.mask⟩ }
 
 /-- insertion into a list sorted by (raw, normal) — Python's `sorted(zip(raw, normal))` -/
 def insertPair (p : Rat × Rat) : List (Rat × Rat) → List (Rat × Rat)
@@ -225,10 +221,8 @@ def curveZBody (sqrt : Rat → Rat) (a : Arr) (z normal : List Num) : Except Err
   if z.length != normal.length then eMp "MixedArrayLengths" .cmd
   else match meanL a.valid, varL a.valid with
     | some mean, some var =>
-        let std := sqrt var
-        let raw := z.map fun v => mean + v.val * std
-        if raw.isEmpty then eRaw "IndexError"
-        else .ok (curveArr a (sortPairs (List.zip raw (normal.map (·.val)))))
+        if z.isEmpty then eRaw "IndexError"
+        else .ok (curveArr a (sortPairs (List.zip (z.map fun v => mean + v.val * sqrt var) (normal.map (·.val)))))
     | _, _ => eRaw "Degenerate"
 
 /-- the k-th column of a list of same-length cell lists -/
@@ -236,15 +230,16 @@ def column (xs : List Arr) (i : Nat) : List Cell := xs.map fun a => a.cells.getD
 
 def sortRat (l : List Rat) : List Rat := l.mergeSort (fun a b => decide (a ≤ b))
 
-/-- stacked, mask-broadcast, sorted along the stack axis; `f` sees the ascending column -/
+/-- one cell of the stacked computation: the broadcast mask is the union of the input masks; `f` sees the column
+sorted ascending (the `.data` of the inputs, all visible when the column is not masked) -/
+def stackCell (xs : List Arr) (f : List Rat → Cell) (i : Nat) : Cell :=
+  if (column xs i).any (·.mask) then ⟨fillValue, true⟩ else f (sortRat ((column xs i).map (·.val)))
+
+/-- stacked, mask-broadcast, sorted along the stack axis -/
 def stackMap (xs : List Arr) (f : List Rat → Cell) : Arr :=
   match xs with
   | [] => default
-  | a :: _ =>
-      { dtype := .float, shape := a.shape,
-        cells := (List.range a.cells.length).map fun i =>
-          let col := column xs i
-          if col.any (·.mask) then ⟨fillValue, true⟩ else f (sortRat (col.map (·.val))) }
+  | a :: _ => { dtype := .float, shape := a.shape, cells := (List.range a.cells.length).map (stackCell xs f) }
 
 def xorCell (asc : List Rat) : Cell :=
   let n := asc.length
